@@ -685,20 +685,28 @@ theorem forward_ok : ∀ (evs : List Ev) (sent ups : List Nat), (∀ p ∈ sent,
 
 theorem checkKeys_map {cl : Key → String → String}
     {fc : List Item × List Item → Option Nat × Option Nat → Option String}
+    {esc : Key → List Item × List Item → Option Nat × Option Nat → Bool}
     (f : Key → List Item × List Item) (g : Key → Option Nat × Option Nat) (sf : Key → Bool) :
-    ∀ (u : List Key) (pos : Nat), (∀ key ∈ u, sf key = true ∨ fc (f key) (g key) = none) →
-    Spec.checkKeys cl fc pos u (u.map f) (u.map g) (u.map sf) = none := by
+    ∀ (u : List Key) (pos : Nat), (∀ key ∈ u, sf key = false ∧ fc (f key) (g key) = none) →
+    Spec.checkKeys cl fc esc pos u (u.map f) (u.map g) (u.map sf) = none := by
   intro u
   induction u with
   | nil => intro _ _; rfl
   | cons k r ih =>
     intro pos h
-    have hk : (if sf k = true then none else fc (f k) (g k)) = none := by
-      rcases h k (by simp) with h1 | h1
-      · simp [h1]
-      · simp [h1]
-    simp only [List.map_cons, Spec.checkKeys, hk]
+    obtain ⟨h1, h2⟩ := h k (by simp)
+    simp only [List.map_cons, Spec.checkKeys, h1, Bool.false_and, Bool.false_eq_true, if_false, h2]
     exact ih _ (fun key hk => h key (by simp [hk]))
+
+theorem stale_flag_false {st : St} (key : Key) (h : ¬ staleKey st key) :
+    (match st.rib key with
+      | some e => isStale st key.peer e
+      | none => false) = false := by
+  cases hr : st.rib key with
+  | none => rfl
+  | some e =>
+    simp only [isStale, decide_eq_false_iff_not]
+    exact fun hg => h ⟨e, hr, hg⟩
 
 theorem checkSubs_ok (c : Case) (u : List Key) (rib : List (Option Nat × Option Nat)) (sl : List Bool) :
     ∀ (l : List SubObs) (i : Nat),
@@ -745,7 +753,7 @@ def NoBmpRecs (st : St) : Prop := ∀ i, ∀ r ∈ (st.threads i).mysubs, r.kind
 
 /-- one channel subscription of the finished run passes the checker -/
 theorem checkSub_chan (c : Case) (hc : caseOk c = true) (i nth : Nat) (r : SubRec)
-    (hr' : r ∈ ((run c).threads i).mysubs) (hb : r.kind = 0) :
+    (hr' : r ∈ ((run c).threads i).mysubs) (hb : r.kind = 0) (hnst : ∀ key, ¬ staleKey (run c) key) :
     Spec.checkSub c (keyUniverse c) ((keyUniverse c).map fun key => (preOf (run c) key, postOf (run c) key))
       ((keyUniverse c).map fun key => match (run c).rib key with
         | some e => isStale (run c) key.peer e
@@ -777,11 +785,8 @@ theorem checkSub_chan (c : Case) (hc : caseOk c = true) (i nth : Nat) (r : SubRe
       simp only [heos, Bool.not_true, Bool.and_false, Bool.false_eq_true, if_false]
       apply checkKeys_map
       intro key _
-      by_cases hst : staleKey (run c) key
-      · left
-        obtain ⟨e, he, hg⟩ := hst
-        simp [he, isStale, hg]
-      right
+      have hst := hnst key
+      refine ⟨stale_flag_false key hst, ?_⟩
       unfold Spec.checkKey
       have h1 := reconstruct hI hq hlive hcomp false key hst
       have h2 := reconstruct hI hq hlive hcomp true key hst
@@ -795,11 +800,8 @@ theorem checkSub_chan (c : Case) (hc : caseOk c = true) (i nth : Nat) (r : SubRe
       simp only [Bool.false_and, Bool.false_eq_true, if_false]
       apply checkKeys_map
       intro key _
-      by_cases hst : staleKey (run c) key
-      · left
-        obtain ⟨e, he, hg⟩ := hst
-        simp [he, isStale, hg]
-      right
+      have hst := hnst key
+      refine ⟨stale_flag_false key hst, ?_⟩
       unfold Spec.checkKey
       simp only [Bool.false_eq_true, if_false]
       have e1 : (if Spec.touched (histPre key ((run c).queues r.sid)) = true then
@@ -825,7 +827,8 @@ theorem checkSub_chan (c : Case) (hc : caseOk c = true) (i nth : Nat) (r : SubRe
 
 /-- The master theorem for cases whose subscriptions are all channel subscriptions — any number of
     shards, writer sessions and subscribers, any operations, any schedule. -/
-theorem check_run_ok (c : Case) (hc : caseOk c = true) (hnb : NoBmpRecs (run c)) :
+theorem check_run_ok (c : Case) (hc : caseOk c = true) (hnb : NoBmpRecs (run c))
+    (hnst : ∀ key, ¬ staleKey (run c) key) :
     Spec.check c (observe c (run c)) = .ok := by
   have hfin := run_finished c hc
   unfold Spec.check
@@ -836,7 +839,7 @@ theorem check_run_ok (c : Case) (hc : caseOk c = true) (hnb : NoBmpRecs (run c))
   obtain ⟨i, _, ⟨p, hp, rfl⟩⟩ := hso
   obtain ⟨nth, r⟩ := p
   have hr' : r ∈ ((run c).threads i).mysubs := mem_enumFrom' _ _ _ hp
-  exact checkSub_chan c hc i nth r hr' (hnb i r hr')
+  exact checkSub_chan c hc i nth r hr' (hnb i r hr') hnst
 
 /-! ## The consumer's snapshot maps (bmp.rs `apply_snapshot`) -/
 
@@ -1084,8 +1087,9 @@ theorem reach_NB {c : Case} (hc : noBmp c = true) {st : St} (h : Reach c st) : N
   | step _ hs ih => exact step_NB ih hs
 
 /-- the master theorem with both hypotheses on the case -/
-theorem check_run_ok_of_noBmp (c : Case) (hc : caseOk c = true) (hb : noBmp c = true) :
+theorem check_run_ok_of_noBmp (c : Case) (hc : caseOk c = true) (hb : noBmp c = true)
+    (hnst : ∀ key, ¬ staleKey (run c) key) :
     Spec.check c (observe c (run c)) = .ok :=
-  check_run_ok c hc (reach_NB hb (run_reach c)).2
+  check_run_ok c hc (reach_NB hb (run_reach c)).2 hnst
 
 end Rbgp.Monitor
